@@ -15,15 +15,10 @@ the grammar allows one.
 Readers: `Rel.lex` / `Rel.parse` / the accessors of `Model/RelAccess.lean` (lossless),
 `Rel.Lossy.readRelations` (lossy).
 
-The code as it exists departs from the property on five constructs; each is excluded by an explicit
-hypothesis below and comes with a closed witness (`decide +kernel`) that the full statement fails:
-
-* F-C10-2 `hasNegatedArch`     — `Relation::architectures()` drops the `!` of `[!arch]` (lossless)
-* F-C10-3 `hasCloseGap`        — whitespace between the version and `)` is an error (both readers)
-* F-C10-4 `hasNegatedArch`     — the lossy reader rejects `[!arch]`
-* F-C10-5 `hasMultiTermGroup`  — the lossy reader reads `<a b>` as two groups `<a> <b>`
-* F-C10-6 `hasProfileEdgeGap`  — the lossy reader rejects whitespace after `<` / before `>`
-* F-C10-7 `hasInnerNewline`    — the lossy reader rejects a newline inside a relation
+All clauses are full statements: the six departures found earlier (F-C10-2 … F-C10-7: negated
+architectures, whitespace before `)`, multi-term profile groups, whitespace at the edges of `<>`,
+newlines inside a relation) are fixed in the code and in the model; their former witnesses are
+kept as positive regression statements `C10_fixed_*` (and as requests in corpus/C10/fixed.req).
 -/
 namespace Deb822Verif.Props.C10
 open Deb822Verif Rel Node RelSpec
@@ -35,98 +30,52 @@ theorem C10_lex_inverts (f : FieldA) (h : f.WF) : lex f.str = f.toks := lex_fiel
 
 /-! ### stage 2: the parser inverts the token list -/
 
-theorem segParseOk_of (f : FieldA) (allow : Bool) (hc : f.hasCloseGap = false)
-    (ha : allow = true ∨ f.hasSubstvar = false) : ∀ s ∈ f.segs, segParseOk allow s := by
-  intro s hs
-  constructor
-  · intro r hr
-    have := hc
-    simp only [FieldA.hasCloseGap, List.any_eq_false] at this
-    simpa using this r (by simp only [FieldA.rels, List.mem_flatMap]; exact ⟨s, hs, hr⟩)
-  · intro hsv
-    rcases ha with ha | ha
-    · exact ha
-    · simp only [FieldA.hasSubstvar, List.any_eq_false] at ha
-      have := ha s hs
-      rw [hsv] at this; exact absurd rfl this
+theorem segParseOk_of (f : FieldA) (allow : Bool) (ha : allow = true ∨ f.hasSubstvar = false) :
+    ∀ s ∈ f.segs, segParseOk allow s := by
+  intro s hs hsv
+  rcases ha with ha | ha
+  · exact ha
+  · simp only [FieldA.hasSubstvar, List.any_eq_false] at ha
+    have := ha s hs
+    rw [hsv] at this; exact absurd rfl this
 
-/-
-  Full statement (false of the code as it exists — finding F-C10-3, see `C10_parse_inverts_witness`):
-
-    theorem C10_parse_inverts (f : FieldA) (h : f.WF) (allow : Bool)
-        (ha : allow = true ∨ f.hasSubstvar = false) : parse f.str allow = ⟨f.tree, []⟩
--/
-/-- reading the text of a well-formed field — without whitespace between a version and its `)` —
-    yields exactly its tree and no error; with substitution variables allowed, or disallowed when
-    the field has none -/
-theorem C10_parse_inverts_partial (f : FieldA) (h : f.WF) (hc : f.hasCloseGap = false) (allow : Bool)
+/-- reading the text of a well-formed field yields exactly its tree and no error; with substitution
+    variables allowed, or disallowed when the field has none -/
+theorem C10_parse_inverts (f : FieldA) (h : f.WF) (allow : Bool)
     (ha : allow = true ∨ f.hasSubstvar = false) : parse f.str allow = ⟨f.tree, []⟩ := by
   unfold parse
   rw [C10_lex_inverts f h]
-  exact parse_field_toks allow f h (segParseOk_of f allow hc ha)
-
-/-- `a (= 1 )` -/
-def exCloseGap : FieldA :=
-  ⟨[⟨[], .alts ⟨['a'], none, some ⟨[.ws [' ']], [], .Equal, [.ws [' ']], ⟨none, ['1']⟩, [.ws [' ']]⟩, none, []⟩ [], []⟩]⟩
-
-/-- witness: a well-formed field with a space before `)` is *rejected* by the lossless reader -/
-theorem C10_parse_inverts_witness :
-    exCloseGap.WF ∧ exCloseGap.hasCloseGap = true ∧ exCloseGap.str = "a (= 1 )".toList
-      ∧ (parse exCloseGap.str true).errors ≠ [] := by decide +kernel
+  exact parse_field_toks allow f h (segParseOk_of f allow ha)
 
 /-! ### stage 3: the accessors expose what was written -/
 
-/-
-  Full statement (false of the code as it exists — findings F-C10-2 and F-C10-3):
-
-    theorem C10_lossless (f : FieldA) (h : f.WF) (allow : Bool) (ha : allow = true ∨ f.hasSubstvar = false) :
-        readRelaxed f.str allow = (f.tree, [])
-        ∧ accEntries (readRelaxed f.str allow).1 = some f.view
-        ∧ substvars (readRelaxed f.str allow).1 = f.substvars
--/
 /-- the lossless reader reports no error on a well-formed field and its accessors expose exactly the
     entries, alternatives, names, architecture qualifiers, operators, versions (epochs and `~`
-    included), architecture lists, profile groups and substitution variables that were written —
-    provided no architecture is negated (F-C10-2) and no version is followed by whitespace (F-C10-3) -/
-theorem C10_lossless_partial (f : FieldA) (h : f.WF) (hc : f.hasCloseGap = false)
-    (hn : f.hasNegatedArch = false) (allow : Bool) (ha : allow = true ∨ f.hasSubstvar = false) :
+    included), architecture lists with their negations, profile groups and substitution variables
+    that were written -/
+theorem C10_lossless (f : FieldA) (h : f.WF) (allow : Bool) (ha : allow = true ∨ f.hasSubstvar = false) :
     readRelaxed f.str allow = (f.tree, [])
       ∧ accEntries (readRelaxed f.str allow).1 = some f.view
       ∧ substvars (readRelaxed f.str allow).1 = f.substvars := by
-  have hp := C10_parse_inverts_partial f h hc allow ha
+  have hp := C10_parse_inverts f h allow ha
   have e : readRelaxed f.str allow = (f.tree, []) := by simp [readRelaxed, hp]
   refine ⟨e, ?_, ?_⟩
-  · rw [e]; exact accEntries_field f h hn
+  · rw [e]; exact accEntries_field f h
   · rw [e]; exact substvars_field f
 
 /-- the strict reader accepts the same fields when they have no substitution variable -/
-theorem C10_strict_partial (f : FieldA) (h : f.WF) (hc : f.hasCloseGap = false)
-    (hs : f.hasSubstvar = false) : readStrict f.str = .ok f.tree := by
-  simp [readStrict, C10_parse_inverts_partial f h hc false (Or.inr hs)]
+theorem C10_strict (f : FieldA) (h : f.WF) (hs : f.hasSubstvar = false) : readStrict f.str = .ok f.tree := by
+  simp [readStrict, C10_parse_inverts f h false (Or.inr hs)]
 
-/-- the accessors that do not involve architectures need no exclusion beyond F-C10-3: names,
-    qualifiers, versions and profile groups of every relation node of the tree -/
+/-- every accessor on every relation node of the expected tree -/
 theorem C10_accessors_rel (r : RelA) (hr : r.ok = true) (tail : List Tok) :
     name (r.node tail) = some r.name
       ∧ archqual (r.node tail) = r.archqual
       ∧ version (r.node tail) = .ok (r.version.map fun v => (v.op, v.ver.value))
       ∧ profiles (r.node tail) = r.profiles.map (fun g => g.items.map Item.profile)
-      ∧ architectures (r.node tail) = r.archs.map (fun a => a.items.map Item.name) :=
+      ∧ architectures (r.node tail) = r.archs.map (fun a => a.items.map Item.text) :=
   ⟨name_rel r tail, archqual_rel r tail, version_rel r tail hr, profiles_rel r tail hr,
     architectures_rel r tail⟩
-
-/-- `a [!b]` -/
-def exNegArch : FieldA :=
-  ⟨[⟨[], .alts ⟨['a'], none, none, some ⟨[.ws [' ']], [⟨[], true, ['b']⟩], []⟩, []⟩ [], []⟩]⟩
-
-/-- witness (F-C10-2): on `a [!b]` the lossless reader reports no error, but `architectures()`
-    answers `["b"]` where `["!b"]` was written: the negation is lost -/
-theorem C10_lossless_witness :
-    exNegArch.WF ∧ exNegArch.hasCloseGap = false ∧ exNegArch.str = "a [!b]".toList
-      ∧ (readRelaxed exNegArch.str true).2 = []
-      ∧ accEntries (readRelaxed exNegArch.str true).1 ≠ some exNegArch.view
-      ∧ ((accEntries (readRelaxed exNegArch.str true).1).map fun es => es.map fun e => e.map (·.architectures))
-          = some [[some [['b']]]] := by decide +kernel
 
 /-- the version that was written always parses (epoch below 2^32 is part of `WF`) … -/
 theorem C10_version_parses (v : VersionA) (hv : v.ok = true) : Version.parse v.str = some v.value :=
@@ -149,46 +98,27 @@ theorem C10_version_epoch_overflow_witness :
 
 /-! ### stage 4: the lossy reader -/
 
-/-- `lossyOk` is exactly "outside the trigger regions of F-C10-3 … F-C10-7" -/
-theorem C10_lossyOk_iff (f : FieldA) : f.lossyOk = true ↔
-    (f.hasNegatedArch = false ∧ f.hasCloseGap = false ∧ f.hasMultiTermGroup = false
-      ∧ f.hasProfileEdgeGap = false ∧ f.hasInnerNewline = false) := by
-  simp only [FieldA.lossyOk, FieldA.hasNegatedArch, FieldA.hasCloseGap, FieldA.hasMultiTermGroup,
-    FieldA.hasProfileEdgeGap, FieldA.hasInnerNewline, List.all_eq_true, List.any_eq_false]
-  constructor
-  · intro h
-    refine ⟨?_, ?_, ?_, ?_, ?_⟩ <;> intro r hr <;> have := (RelA.lossyOk_iff r).1 (h r hr) <;> simp [this]
-  · intro ⟨h1, h2, h3, h4, h5⟩ r hr
-    exact (RelA.lossyOk_iff r).2 ⟨by simpa using h1 r hr, by simpa using h2 r hr, by simpa using h3 r hr,
-      by simpa using h4 r hr, by simpa using h5 r hr⟩
-
-/-
-  Full statement (false of the code as it exists — findings F-C10-3 … F-C10-7):
-
-    theorem C10_lossy (f : FieldA) (h : f.WF) (hs : f.hasSubstvar = false) :
-        Lossy.readRelations f.str = .ok f.view
--/
 /-- the lossy reader accepts a well-formed field without substitution variables and yields the
-    structure that was written — outside the five constructs listed at the top of this file -/
-theorem C10_lossy_partial (f : FieldA) (h : f.WF) (hs : f.hasSubstvar = false)
-    (hn : f.hasNegatedArch = false) (hc : f.hasCloseGap = false) (hm : f.hasMultiTermGroup = false)
-    (he : f.hasProfileEdgeGap = false) (hl : f.hasInnerNewline = false) :
-    Lossy.readRelations f.str = .ok f.view :=
-  readRelations_field f h hs ((C10_lossyOk_iff f).2 ⟨hn, hc, hm, he, hl⟩)
+    structure that was written -/
+theorem C10_lossy (f : FieldA) (h : f.WF) (hs : f.hasSubstvar = false) :
+    Lossy.readRelations f.str = .ok f.view := readRelations_field f h hs
 
 /-- both readers yield the same structure -/
-theorem C10_same_structure_partial (f : FieldA) (h : f.WF) (hs : f.hasSubstvar = false)
-    (hn : f.hasNegatedArch = false) (hc : f.hasCloseGap = false) (hm : f.hasMultiTermGroup = false)
-    (he : f.hasProfileEdgeGap = false) (hl : f.hasInnerNewline = false) :
+theorem C10_same_structure (f : FieldA) (h : f.WF) (hs : f.hasSubstvar = false) :
     (accEntries (readRelaxed f.str false).1).map Except.ok = some (Lossy.readRelations f.str) := by
-  rw [C10_lossy_partial f h hs hn hc hm he hl,
-    (C10_lossless_partial f h hc hn false (Or.inr hs)).2.1]
+  rw [C10_lossy f h hs, (C10_lossless f h false (Or.inr hs)).2.1]
   rfl
 
-/-- one relation with the given profile groups / architecture list -/
+/-! ### regression statements for the fixed findings -/
+
+/-- one relation `a` with the given parts -/
 def mkField (archs : Option Bracket) (profs : List Bracket) (ver : Option VerPart) : FieldA :=
   ⟨[⟨[], .alts ⟨['a'], none, ver, archs, profs⟩ [], []⟩]⟩
 
+/-- `a (= 1 )` -/
+def exCloseGap : FieldA := mkField none [] (some ⟨[.ws [' ']], [], .Equal, [.ws [' ']], ⟨none, ['1']⟩, [.ws [' ']]⟩)
+/-- `a [!b]` -/
+def exNegArch : FieldA := mkField (some ⟨[.ws [' ']], [⟨[], true, ['b']⟩], []⟩) [] none
 /-- `a <b c>` -/
 def exMultiTerm : FieldA := mkField none [⟨[.ws [' ']], [⟨[], false, ['b']⟩, ⟨[.ws [' ']], false, ['c']⟩], []⟩] none
 /-- `a < b>` -/
@@ -196,67 +126,69 @@ def exEdgeGap : FieldA := mkField none [⟨[.ws [' ']], [⟨[.ws [' ']], false, 
 /-- `a\n(= 1)` -/
 def exInnerNl : FieldA := mkField none [] (some ⟨[.nl], [], .Equal, [.ws [' ']], ⟨none, ['1']⟩, []⟩)
 
-/-- witness (F-C10-4): `a [!b]` is rejected by the lossy reader -/
-theorem C10_lossy_witness_negarch :
-    exNegArch.WF ∧ exNegArch.hasSubstvar = false
-      ∧ (match Lossy.readRelations exNegArch.str with | .ok _ => true | .error _ => false) = false := by
+/-- F-C10-3 (fixed): `a (= 1 )` is read without error by both readers -/
+theorem C10_fixed_closegap :
+    exCloseGap.WF ∧ exCloseGap.hasCloseGap = true ∧ exCloseGap.str = "a (= 1 )".toList
+      ∧ (parse exCloseGap.str true).errors = []
+      ∧ Lossy.readRelations exCloseGap.str = .ok exCloseGap.view := by decide +kernel
+
+/-- F-C10-2 (fixed): on `a [!b]` `architectures()` answers `["!b"]` -/
+theorem C10_fixed_negarch_lossless :
+    exNegArch.WF ∧ exNegArch.hasNegatedArch = true ∧ exNegArch.str = "a [!b]".toList
+      ∧ (readRelaxed exNegArch.str true).2 = []
+      ∧ accEntries (readRelaxed exNegArch.str true).1 = some exNegArch.view
+      ∧ exNegArch.view = [[⟨['a'], none, some ["!b".toList], none, []⟩]] := by decide +kernel
+
+/-- F-C10-4 (fixed): `a [!b]` is accepted by the lossy reader, with `"!b"` -/
+theorem C10_fixed_negarch_lossy :
+    Lossy.readRelations exNegArch.str = .ok [[⟨['a'], none, some ["!b".toList], none, []⟩]] := by
   decide +kernel
 
-/-- witness (F-C10-5): `a <b c>` is accepted by the lossy reader but read as `a <b> <c>` -/
-theorem C10_lossy_witness_multiterm :
-    exMultiTerm.WF ∧ exMultiTerm.str = "a <b c>".toList
-      ∧ Lossy.readRelations exMultiTerm.str ≠ .ok exMultiTerm.view
+/-- F-C10-5 (fixed): `a <b c>` is one restriction list of two terms for the lossy reader -/
+theorem C10_fixed_multiterm :
+    exMultiTerm.WF ∧ exMultiTerm.hasMultiTermGroup = true ∧ exMultiTerm.str = "a <b c>".toList
       ∧ Lossy.readRelations exMultiTerm.str
-          = .ok [[⟨['a'], none, none, none, [[.Enabled ['b']], [.Enabled ['c']]]⟩]]
-      ∧ exMultiTerm.view = [[⟨['a'], none, none, none, [[.Enabled ['b'], .Enabled ['c']]]⟩]] := by
-  decide +kernel
+          = .ok [[⟨['a'], none, none, none, [[.Enabled ['b'], .Enabled ['c']]]⟩]] := by decide +kernel
 
-/-- witness (F-C10-6): `a < b>` is rejected by the lossy reader -/
-theorem C10_lossy_witness_edgegap :
-    exEdgeGap.WF ∧ exEdgeGap.str = "a < b>".toList
-      ∧ (match Lossy.readRelations exEdgeGap.str with | .ok _ => true | .error _ => false) = false := by
-  decide +kernel
+/-- F-C10-6 (fixed): `a < b>` is accepted by the lossy reader -/
+theorem C10_fixed_edgegap :
+    exEdgeGap.WF ∧ exEdgeGap.hasProfileEdgeGap = true ∧ exEdgeGap.str = "a < b>".toList
+      ∧ Lossy.readRelations exEdgeGap.str = .ok exEdgeGap.view := by decide +kernel
 
-/-- witness (F-C10-7): `a\n(= 1)` is rejected by the lossy reader -/
-theorem C10_lossy_witness_newline :
-    exInnerNl.WF ∧ exInnerNl.str = "a\n(= 1)".toList
-      ∧ (match Lossy.readRelations exInnerNl.str with | .ok _ => true | .error _ => false) = false := by
-  decide +kernel
-
-/-- witness (F-C10-3, lossy side): `a (= 1 )` is rejected by the lossy reader too -/
-theorem C10_lossy_witness_closegap :
-    (match Lossy.readRelations exCloseGap.str with | .ok _ => true | .error _ => false) = false := by
-  decide +kernel
+/-- F-C10-7 (fixed): `a\n(= 1)` is accepted by the lossy reader -/
+theorem C10_fixed_newline :
+    exInnerNl.WF ∧ exInnerNl.hasInnerNewline = true ∧ exInnerNl.str = "a\n(= 1)".toList
+      ∧ Lossy.readRelations exInnerNl.str = .ok exInnerNl.view := by decide +kernel
 
 /-! ### non-vacuity: a field using every construct of the grammar, in a folded layout -/
 
-/-- `libc6:any (>= 1:2.3~rc1-4) [amd64 i386] <!nocheck> <cross>\n | g++,\n ${shlibs:Depends}, ,x (<< 0),` -/
+/-- `libc6:any (>= 1:2.3~rc1-4 ) [amd64 !i386] < !nocheck stage1> <cross>\n | g++,\n ${shlibs:Depends}, ,x\n(<< 0),` -/
 def exField : FieldA :=
   ⟨[ ⟨[], .alts
         ⟨"libc6".toList, some "any".toList,
-          some ⟨[.ws [' ']], [], .GreaterThanEqual, [.ws [' ']], ⟨some ['1'], "2.3~rc1-4".toList⟩, []⟩,
-          some ⟨[.ws [' ']], [⟨[], false, "amd64".toList⟩, ⟨[.ws [' ']], false, "i386".toList⟩], []⟩,
-          [⟨[.ws [' ']], [⟨[], true, "nocheck".toList⟩], []⟩, ⟨[.ws [' ']], [⟨[], false, "cross".toList⟩], []⟩]⟩
+          some ⟨[.ws [' ']], [], .GreaterThanEqual, [.ws [' ']], ⟨some ['1'], "2.3~rc1-4".toList⟩, [.ws [' ']]⟩,
+          some ⟨[.ws [' ']], [⟨[], false, "amd64".toList⟩, ⟨[.ws [' ']], true, "i386".toList⟩], []⟩,
+          [⟨[.ws [' ']], [⟨[.ws [' ']], true, "nocheck".toList⟩, ⟨[.ws [' ']], false, "stage1".toList⟩], []⟩,
+           ⟨[.ws [' ']], [⟨[], false, "cross".toList⟩], []⟩]⟩
         [⟨[.nl, .ws [' ']], [.ws [' ']], ⟨"g++".toList, none, none, none, []⟩⟩], []⟩,
      ⟨[.nl, .ws [' ']], .substvar "shlibs".toList ["Depends".toList], []⟩,
      ⟨[.ws [' ']], .empty, []⟩,
-     ⟨[], .alts ⟨['x'], none, some ⟨[.ws [' ']], [], .LessThan, [.ws [' ']], ⟨none, ['0']⟩, []⟩, none, []⟩ [], []⟩,
+     ⟨[], .alts ⟨['x'], none, some ⟨[.nl], [], .LessThan, [.ws [' ']], ⟨none, ['0']⟩, []⟩, none, []⟩ [], []⟩,
      ⟨[], .empty, []⟩ ]⟩
 
 example : exField.str =
-    "libc6:any (>= 1:2.3~rc1-4) [amd64 i386] <!nocheck> <cross>\n | g++,\n ${shlibs:Depends}, ,x (<< 0),".toList := by
+    "libc6:any (>= 1:2.3~rc1-4 ) [amd64 !i386] < !nocheck stage1> <cross>\n | g++,\n ${shlibs:Depends}, ,x\n(<< 0),".toList := by
   decide +kernel
 
 example : exField.WF := by decide +kernel
-example : exField.hasCloseGap = false ∧ exField.hasNegatedArch = false ∧ exField.hasSubstvar = true := by
+example : exField.hasSubstvar = true := by decide +kernel
+
+/-- the hypotheses of `C10_lossy` / `C10_strict` are satisfiable (the example without its substvar) -/
+def exFieldLossy : FieldA := ⟨exField.segs.filter fun s => !s.entry.isSubstvar⟩
+example : exFieldLossy.WF ∧ exFieldLossy.hasSubstvar = false ∧ exFieldLossy.view.length = 2 := by
   decide +kernel
 
-/-- the hypotheses of `C10_lossy_partial` are satisfiable (the example without its substvar) -/
-def exFieldLossy : FieldA := ⟨exField.segs.filter fun s => !s.entry.isSubstvar⟩
-example : exFieldLossy.WF ∧ exFieldLossy.hasSubstvar = false ∧ exFieldLossy.lossyOk = true
-    ∧ exFieldLossy.view.length = 2 := by decide +kernel
-
-example : (readRelaxed exField.str true).2 = [] := (C10_lossless_partial exField (by decide +kernel)
-  (by decide +kernel) (by decide +kernel) true (Or.inl rfl)).1 ▸ rfl
+example : (readRelaxed exField.str true).2 = [] :=
+  (C10_lossless exField (by decide +kernel) true (Or.inl rfl)).1 ▸ rfl
 
 end Deb822Verif.Props.C10
